@@ -1,5 +1,7 @@
 (* Run/C12.v — Sx codec around Model/CompilerCache.v for the correspondence check.
-   case   = ( op ... )      op = ( swap d n b m ) | ( retarget d n d2 n2 ) | ( remove d n )
+   case   = ( op ... )      op = ( swap d n b m ) | ( rewrite d n b m ) | ( retarget d n d2 n2 ) | ( remove d n )
+                            ( rewrite = the same change made IN PLACE — same inode — on a regular file: for
+                              the model it is a swap; the generators only rewrite regular files )
                                  | ( touch d n m ) | ( compile d n src ) | ( compile d n src ( envop ... ) )
                             envop = swap / retarget / remove / touch as above: what happens to the file
                                     system WHILE the request's detection probe runs
@@ -12,7 +14,7 @@
 From Coq Require Import List NArith Bool.
 From Coq Require String.
 Import String.StringSyntax.
-From Sccache Require Import Base.Sx Model.CompilerCache Gen.C12Window.
+From Sccache Require Import Base.Sx Model.CompilerCache Model.RustToolchain Gen.C12Window.
 Import ListNotations.
 Local Open Scope N_scope.
 Local Open Scope string_scope.
@@ -27,7 +29,7 @@ Definition mkpath (d n : sx) : path := (norm_d (get_N d), norm_n (get_N n)).
 Definition dec_eop (x : sx) : option eop :=
   match x with
   | SL [t; d; n; a; b] =>
-      if is_sym "swap" t then Some (ESwap (mkpath d n) (get_N a) (get_N b))
+      if is_sym "swap" t || is_sym "rewrite" t then Some (ESwap (mkpath d n) (get_N a) (get_N b))
       else if is_sym "retarget" t then Some (ERetarget (mkpath d n) (mkpath a b))
       else None
   | SL [t; d; n; a] =>
@@ -49,7 +51,7 @@ Fixpoint dec_eops (l : list sx) : option (list eop) :=
 Definition dec_op (x : sx) : option op :=
   match x with
   | SL [t; d; n; a; b] =>
-      if is_sym "swap" t then Some (Swap (mkpath d n) (get_N a) (get_N b))
+      if is_sym "swap" t || is_sym "rewrite" t then Some (Swap (mkpath d n) (get_N a) (get_N b))
       else if is_sym "retarget" t then Some (Retarget (mkpath d n) (mkpath a b))
       else if is_sym "compile" t then
         match b with
@@ -114,6 +116,51 @@ Definition run_c12 (v : variant) (x : sx) : sx :=
   | _ => err "bad case"
   end.
 
+(* ---------- the rustc world: case = ( op ... ), op = ( default t ) | ( install t b m ) | ( req src )
+   | ( reqd t src );  result = one ( outcome producer ( build mtime ) used ) per request ---------- *)
+Definition identR (b : N) : N := 1000 + b.
+
+Definition dec_rop (x : sx) : option rop :=
+  match x with
+  | SL [t; a] =>
+      if is_sym "default" t then Some (RDefault (get_N a))
+      else if is_sym "req" t then Some (RReq (get_N a))
+      else None
+  | SL [t; a; b] =>
+      if is_sym "reqd" t then Some (RReqDirect (get_N a) (get_N b)) else None
+  | SL [t; a; b; c] =>
+      if is_sym "install" t then Some (RInstall (get_N a) (get_N b) (get_N c)) else None
+  | _ => None
+  end.
+
+Fixpoint dec_rops (l : list sx) : option (list rop) :=
+  match l with
+  | [] => Some []
+  | x :: r => match dec_rop x, dec_rops r with
+              | Some o, Some os => Some (o :: os)
+              | _, _ => None
+              end
+  end.
+
+Definition enc_revent (e : revent) : sx :=
+  let '(o, prod) := match v_out e with
+                    | RUnsupported => (sym "unsupported", 0)
+                    | RHit p => (sym "hit", p)
+                    | RMiss p => (sym "miss", p)
+                    end in
+  SL [o; SN prod; match v_cur e with Some (b, m) => SL [SN b; SN m] | None => SL [] end;
+      match v_used e with Some u => SL [SN u] | None => SL [] end].
+
+Definition run_rust (memo : bool) (x : sx) : sx :=
+  match x with
+  | SL ops =>
+      match dec_rops ops with
+      | Some os => SL (map enc_revent (rexec identR H0 memo rstart os))
+      | None => err "bad op"
+      end
+  | _ => err "bad case"
+  end.
+
 Definition dispatch (leg : list N) (x : sx) : sx :=
   if bytes_eqb leg (bs "inproc") then run_c12 tree_variant x
   else if bytes_eqb leg (bs "e2e") then run_c12 tree_variant x
@@ -121,4 +168,6 @@ Definition dispatch (leg : list N) (x : sx) : sx :=
   else if bytes_eqb leg (bs "asfound") then run_c12 VAsFound x
   else if bytes_eqb leg (bs "legacy") then run_c12 VLegacy x
   else if bytes_eqb leg (bs "earlylate") then run_c12 VEarlyLate x
+  else if bytes_eqb leg (bs "rustworld") then run_rust false x
+  else if bytes_eqb leg (bs "rustmemo") then run_rust true x
   else err "unknown leg".
